@@ -44,6 +44,42 @@ def write_pkg(root, text):
     return path
 
 
+LOCALREFS = '''package pk
+
+import "strings"
+
+type Rec struct {
+	n int
+	s string
+}
+
+type Op func(int) int
+
+var table = map[string]int{"a": 1}
+
+var Hook Op = func(x int) int { return x + 1 }
+
+func helper(a int) int { return a * 3 }
+
+func (r *Rec) Get() int { return r.n + helper(r.n) }
+
+func MakeRec(a int) *Rec { return &Rec{n: a, s: strings.Repeat("x", a)} }
+
+func Use(a int) int { return helper(a) + table["a"] + Hook(a) }
+
+func Conv(v interface{}) int {
+	if r, ok := v.(*Rec); ok {
+		return r.Get()
+	}
+	return 0
+}
+
+func Gen[T any](x T) T { return x }
+
+func UseGen(a int) int { return Gen[int](a) + Gen[Rec](Rec{n: a}).n }
+'''
+
+
 def check(ctx):
     thorough = ctx.tier == "thorough"
     ctx.build_drv()
@@ -115,6 +151,13 @@ def check(ctx):
     pn = write_pkg(os.path.join(base, "go_n"), text)
     plan.append({"old": po, "new": pn, "sims": []})
     metas.append(("copy", None, [gogen.display_name(f) for f in funcs]))
+
+    # copies of one source in TWO DIRECTORIES OF ONE MODULE (different package paths): functions that refer to
+    # functions, variables, types and methods of their own package
+    lr = os.path.join(base, "localrefs")
+    gogen.write_module(lr, "pk", {"left/x.go": LOCALREFS, "right/x.go": LOCALREFS}, module="example.com/localrefs")
+    plan.append({"old": os.path.join(lr, "left", "x.go"), "new": os.path.join(lr, "right", "x.go"), "sims": []})
+    metas.append(("copy", None, ["helper", "(*Rec).Get", "MakeRec", "Use", "Conv", "UseGen", "init"]))
 
     pp = os.path.join(ctx.scratch, "c04.plan.json")
     raw = os.path.join(ctx.scratch, "c04.raw.ndjson")
